@@ -424,3 +424,10 @@ func TestVerifC03Concurrent(t *testing.T) {
 		Assumptions: []string{"interleavings are produced by the Go scheduler, not enumerated"}},
 		genC20c, runC20c)
 }
+
+func TestVerifC11Concurrent(t *testing.T) {
+	vw.Run(t, vw.Options{Property: "C11", Engine: "controller-concurrent",
+		Rule:        "the concurrent workloads of C20 (pools shrunk, removed and re-homed while services are created, deleted and re-synced, counters queried meanwhile): no data race, no negative counter at rest, allocator memory / counters / statuses equal to the serial replay in effect order; non-trivial = pool handlers interleaved with service handlers",
+		Assumptions: []string{"interleavings are produced by the Go scheduler, not enumerated"}},
+		genC20c, runC20c)
+}
